@@ -46,6 +46,8 @@ type Contract struct {
 	NoInline bool
 	GhostInc []string // ghost counters incremented by one on entry (ghost code of the function)
 	GhostSet map[string]int64 // ghost variables set on entry
+	Implements []string       // interface-method contracts whose clauses this function inherits
+	Alias    map[string]int    // extra parameter names (of inherited clauses) -> parameter index
 	Inl      bool // callers inline the body instead of using the contract
 	Witness  []string
 	Lemmas   []*Clause
@@ -195,7 +197,7 @@ func (e *Engine) loadContractFile(path, pkgShort string) error {
 		lines = append(lines, logical{t, i + 1})
 	}
 	isStart := func(s string) bool {
-		for _, k := range []string{"func ", "trusted func ", "interface ", "spec ", "ghostvar ", "requires", "ensures", "modifies", "loop ", "ghost ", "also", "pure", "noinline", "inline", "ghostinc ", "ghostset ", "witness ", "lemma ", "assert", "at "} {
+		for _, k := range []string{"func ", "trusted func ", "interface ", "spec ", "ghostvar ", "requires", "ensures", "modifies", "loop ", "ghost ", "also", "pure", "noinline", "inline", "ghostinc ", "ghostset ", "implements ", "witness ", "lemma ", "assert", "at "} {
 			if strings.HasPrefix(s, k) {
 				return true
 			}
@@ -283,6 +285,8 @@ func (e *Engine) loadContractFile(path, pkgShort string) error {
 			cur.Cases = append(cur.Cases, curCase)
 		case t == "pure":
 			cur.Pure = true
+		case strings.HasPrefix(t, "implements "):
+			cur.Implements = append(cur.Implements, strings.TrimSpace(t[len("implements "):]))
 		case strings.HasPrefix(t, "ghostset "):
 			w := strings.Fields(t)
 			if len(w) != 3 {
@@ -376,7 +380,7 @@ func (e *Engine) loadContracts(repo, specDir string) error {
 		}
 	}
 	// repo contract files
-	return filepath.Walk(repo, func(p string, info os.FileInfo, err error) error {
+	err := filepath.Walk(repo, func(p string, info os.FileInfo, err error) error {
 		if err != nil {
 			return nil
 		}
@@ -396,6 +400,50 @@ func (e *Engine) loadContracts(repo, specDir string) error {
 		}
 		return e.loadContractFile(p, pkg)
 	})
+	if err != nil {
+		return err
+	}
+	return e.resolveImplements()
+}
+
+// resolveImplements copies the clauses of interface-method contracts into the
+// contracts of the functions that declare `implements` (behavioural subtyping: the
+// implementation is verified against the interface contract, with the same meaning).
+func (e *Engine) resolveImplements() error {
+	for _, c := range e.contracts {
+		for _, ik := range c.Implements {
+			ic := e.ifaceCon[ik]
+			if ic == nil {
+				// allow the tq. alias
+				ic = e.ifaceCon[strings.Replace(ik, "tq.", "tacquito.", 1)]
+			}
+			if ic == nil {
+				return fmt.Errorf("%s: implements unknown interface contract %s", c.Key, ik)
+			}
+			if c.Alias == nil {
+				c.Alias = map[string]int{}
+			}
+			for i, n := range ic.Params {
+				c.Alias[n] = i
+			}
+			base := 0
+			for _, sc := range c.Cases {
+				base += len(sc.Ensures)
+			}
+			for _, rq := range ic.Cases[0].Requires {
+				c.Cases[0].Requires = append(c.Cases[0].Requires, rq)
+			}
+			for _, en := range ic.Cases[0].Ensures {
+				cp := *en
+				base++
+				cp.Ord = base
+				cp.Text = en.Text + " (inherited from " + ik + ")"
+				c.Cases[0].Ensures = append(c.Cases[0].Ensures, &cp)
+			}
+			c.Modifies = append(c.Modifies, ic.Modifies...)
+		}
+	}
+	return nil
 }
 
 func hasTag(tags []string, want map[string]bool) bool {
